@@ -16,19 +16,19 @@ for v in (0, 1):
     A(E("q", "mehd_v%d" % v, "MehdBox", "any_mehd(%d)" % v, "ref_mehd", 16 + 4 * v, 3))
     A(E("q", "tfdt_v%d" % v, "TfdtBox", "any_tfdt(%d)" % v, "ref_tfdt", 16 + 4 * v, 3))
     for e in (0, 1, 2):
-        A(E("q" if e in (0, 2) else "t", "elst_v%d_e%d" % (v, e), "ElstBox", "any_elst::<%d>(%d)" % (e, v), "ref_elst", 16 + e * (12 + 8 * v), e + 3))
+        A(E("q" if e == 2 else "t", "elst_v%d_e%d" % (v, e), "ElstBox", "any_elst::<%d>(%d)" % (e, v), "ref_elst", 16 + e * (12 + 8 * v), e + 3))
 for l in (0, 1, 3):
-    A(E("q" if l in (0, 3) else "t", "hdlr_l%d" % l, "HdlrBox", "any_hdlr::<%d>()" % l, "ref_hdlr", 33 + l, l + 6))
+    A(E("q" if l == 3 else "t", "hdlr_l%d" % l, "HdlrBox", "any_hdlr::<%d>()" % l, "ref_hdlr", 33 + l, l + 6))
     A(E("q" if l in (0, 3) else "t", "url_l%d" % l, "UrlBox", "any_url::<%d>()" % l, "ref_url", 12 + (l + 1 if l else 0), l + 6))
     A(E("q" if l == 3 else "t", "dref_l%d" % l, "DrefBox", "any_dref::<%d>()" % l, "ref_dref", 16 + 12 + (l + 1 if l else 0), l + 6))
-    A(E("q" if l in (0, 3) else "t", "data_l%d" % l, "DataBox", "any_data::<%d>()" % l, "ref_data", 16 + l, l + 4))
+    A(E("q" if l == 3 else "t", "data_l%d" % l, "DataBox", "any_data::<%d>()" % l, "ref_data", 16 + l, l + 4))
 A(E("q", "vmhd", "VmhdBox", "any_vmhd()", "ref_vmhd", 20, 3))
 A(E("q", "smhd", "SmhdBox", "any_smhd()", "ref_smhd", 16, 3))
 A(E("q", "trex", "TrexBox", "any_trex()", "ref_trex", 32, 3))
 A(E("q", "mfhd", "MfhdBox", "any_mfhd()", "ref_mfhd", 16, 3))
 for e in (0, 1, 2):
-    t = "q" if e in (0, 2) else "t"
-    A(E(t, "stts_e%d" % e, "SttsBox", "any_stts::<%d>()" % e, "ref_stts", 16 + 8 * e, e + 3))
+    t = "q" if e == 2 else "t"
+    A(E("q" if e in (0, 2) else "t", "stts_e%d" % e, "SttsBox", "any_stts::<%d>()" % e, "ref_stts", 16 + 8 * e, e + 3))
     A(E(t, "ctts_e%d" % e, "CttsBox", "any_ctts::<%d>()" % e, "ref_ctts", 16 + 8 * e, e + 3))
     A(E(t, "stss_e%d" % e, "StssBox", "any_stss::<%d>()" % e, "ref_stss", 16 + 4 * e, e + 3))
     A(E(t, "stsc_e%d" % e, "StscBox", "any_stsc::<%d>()" % e, "ref_stsc", 16 + 12 * e, e + 3))
@@ -41,7 +41,7 @@ TFHD_BITS = (0x01, 0x02, 0x08, 0x10, 0x20)
 for m in range(32):
     opt = sum(b for i, b in enumerate(TFHD_BITS) if m >> i & 1)
     size = 16 + (8 if opt & 1 else 0) + 4 * bin(opt & 0x3a).count("1")
-    quick = m in (0, 31, 1, 8)
+    quick = m in (0, 31)
     A(E("q" if quick else "t", "tfhd_opt%02x" % opt, "TfhdBox", "any_tfhd(0x%x)" % opt, "ref_tfhd", size, 3))
 # trun: all 64 flag combinations x N in {0,1,2}; quick: a covering subset
 TRUN_BITS = (0x001, 0x004, 0x100, 0x200, 0x400, 0x800)
@@ -57,7 +57,7 @@ for v in (0, 1):
         t = "t"
         A(E(t, "emsg_v%d_s%d_v%d_m%d" % (v, s, vv, m), "EmsgBox", "any_emsg::<%d, %d, %d>(%d)" % (s, vv, m, v), "ref_emsg",
             12 + 4 + (12 if v == 0 else 16) + s + 1 + vv + 1 + m, max(s, vv, m) + 4))
-A(E("q", "emsg_v0_s1_v2_m0", "EmsgBox", "any_emsg::<1, 2, 0>(0)", "ref_emsg", 12 + 4 + 12 + 2 + 3, 7))
+A(E("t", "emsg_v0_s1_v2_m0", "EmsgBox", "any_emsg::<1, 2, 0>(0)", "ref_emsg", 12 + 4 + 12 + 2 + 3, 7))
 A(E("q", "emsg_v1_utf8_m2", "EmsgBox", "any_emsg_utf8::<2>(1)", "ref_emsg", 12 + 4 + 16 + 4 + 2 + 2, 8))
 A(E("t", "emsg_v0_utf8_m0", "EmsgBox", "any_emsg_utf8::<0>(0)", "ref_emsg", 12 + 4 + 12 + 4 + 2, 8))
 A(E("q", "tx3g", "Tx3gBox", "any_tx3g()", "ref_tx3g", 46, 14))
